@@ -67,6 +67,7 @@ class atom(boolean.AndRestriction):
         "cpvstr",
         "op",
         "blocks",
+        "blocks_strongly",
         "negate_vers",
         "use",
         "slot",
